@@ -271,6 +271,8 @@ def _stmts(fn: FuncInfo, names: List[str]) -> List[str]:
     for st in ast.walk(fn.node):
         if isinstance(st, ast.Assign) and norm(st.targets[0]) in names:
             out.append(norm(st))
+        elif isinstance(st, ast.AugAssign) and norm(st.target) in names:
+            out.append(norm(st))
     return out
 
 
@@ -279,7 +281,7 @@ def rule_pointers(ctx) -> None:
     ivt = ctx.own(HS, "IvtHabSegment", "load_from_config")
     csf = ctx.own(HS, "CsfHabSegment", "load_from_config")
     a = _stmts(ivt, ["image_len", "csf_offset"])
-    b = [s.replace("offset =", "csf_offset =", 1) if s.startswith("offset =") else s for s in _stmts(csf, ["image_len", "offset"])]
+    b = [("csf_" + s) if s.startswith(("offset =", "offset -=")) else s for s in _stmts(csf, ["image_len", "offset"])]
     b = [s.replace("cls.align_offset", "CsfHabSegment.align_offset").replace("(offset)", "(csf_offset)").replace("= offset -", "= csf_offset -") for s in b]
     # accepted refactoring: both sides obtain the offset from one shared helper
     helper_a = {A.call_name(c) for c in A.calls_in(ivt.node) if "csf" in A.call_name(c).lower() and "offset" in A.call_name(c).lower() and A.call_name(c) != "align_offset"}
@@ -310,7 +312,7 @@ def rule_pointers(ctx) -> None:
     chk.decide("start_address = bdt.segment.app_start" in t and "ivt_offset = ivt.segment.ivt_address - bdt.segment.app_start" in t, "C07.pointers", hp.qual, "start address and IVT offset are recovered from boot data start and the IVT self pointer", "", "", A.loc(HC, hp.node))
     # boot data length
     t = norm(bd.node)
-    ok = "segment = SegBDT(app_start=config.options.start_address)" in t and "end_segments: dict[int, Type[HabSegmentBase]] = {0: AppHabSegment, 1: CsfHabSegment}" in t and \
+    ok = "segment = SegBDT(app_start=config.options.start_address)" in t and "end_segments = {0: AppHabSegment, 1: CsfHabSegment}" in t and \
         "end_seg_class = end_segments[(config.options.flags & 15) >> 3]" in t and "segment.app_length = config.options.get_ivt_offset() + end_seg.offset + end_seg.size" in t
     chk.decide(ok, "C07.pointers", bd.qual + " length", "boot data length = IVT offset + offset + size of the last segment (CSF when authenticated, else the application)", t[:300], "", A.loc(HS, bd.node))
     ap = ctx.own(HS, "AppHabSegment", "load_from_config")
